@@ -1009,7 +1009,7 @@ class CouplingModel(Model):
             if plus_hc:
                 plus_hc = False  # explicitly add the h.c. later; don't do it here.
             else:
-                strength /= 2  # avoid double-counting this term: add the h.c. explicitly later on
+                strength = strength / 2  # (not in place: integer arrays); avoid double-counting this term: add the h.c. explicitly later on
         if not self.lat.unit_cell[u].valid_opname(opname):
             raise ValueError(f'unknown onsite operator {opname!r} for u={u:d}\n{self.lat.unit_cell[u]!r}')
         if self.lat.unit_cell[u].op_needs_JW(opname):
